@@ -504,7 +504,9 @@ fn gen_pos(r: &mut Rng, n: usize, out: &mut dyn Write) {
     for i in 0..n {
         let exact = i % 3 == 0;
         let dur = if exact { r.pick(&DY_DURS) } else if r.chance(1, 5) { r.unit_f32() * 10.0 + 1e-3 } else { r.pick(&DURS) };
-        let delay = if exact { r.pick(&DY_DELAYS) } else if r.chance(1, 5) { r.unit_f32() * 5.0 } else { r.pick(&DELAYS) };
+        let mut delay = if exact { r.pick(&DY_DELAYS) } else if r.chance(1, 5) { r.unit_f32() * 5.0 } else { r.pick(&DELAYS) };
+        // "any delay": one time scale in twelve has a negative delay (the animation counts as started before time 0)
+        if r.chance(1, 12) { delay = if exact { -r.pick(&[0.25f32, 0.5, 1.0, 3.0]) } else { -(r.unit_f32() * 3.0 + 0.01) }; }
         let rep = repeat_tok(r);
         let rev = r.chance(1, 2);
         let tl = GenTl { shape: "S8".into(), dur: Some(dur), delay: Some(delay), rep: Some(rep.clone()), rev: Some(rev), easing: None, kfs: vec![], exact };
